@@ -84,11 +84,55 @@ def t16_pred(run, fx):
                     ty, fn, cname, cname, sorted({c.split("::")[-1] for c in consts}) or sym.show(ret)[:60]), "%s:%s" % (b.file, b.line))
 
 
+def t16_comp(run, fx):
+    rule = "T16-COMP"
+    run.rule(rule, "nested composite glyphs: the transform accumulated so far is not dropped on the way down - in visit_outline the call that "
+                   "descends into a composite's components receives a value derived from visit_outline's transform parameter(s), and in "
+                   "visit_composite_glyph_outline the recursive visit_outline call receives a transform that depends on that inherited value as well "
+                   "as on the component's own arguments (a point of an inner component ends up at T_outer(T_inner(p)))")
+    vo = [b for b in fx.bodies if b.kind != "Closure" and b.root.endswith("::visit_outline") and "glyf::outline" in b.root]
+    vc = [b for b in fx.bodies if b.kind != "Closure" and b.root.endswith("::visit_composite_glyph_outline")]
+    if not vo or not vc:
+        return run.anchor_missing(rule, "visit_outline / visit_composite_glyph_outline")
+    b = vo[0]
+    prov = sym.Prov(b)
+    down = [(bi, t) for bi, t in b.calls() if (t["callee"].get("path") or "").endswith("visit_composite_glyph_outline")]
+    if not down:
+        run.anchor_missing(rule, "call of visit_composite_glyph_outline in visit_outline")
+    for bi, t in down:
+        inherited = any(any(x[0] == "arg" and x[2] not in (None, "self", "glyph_index", "sink", "depth") for x in sym.walk(prov.op(a))) for a in t["args"])
+        if inherited:
+            run.ok(rule, "visit_outline hands the accumulated transform to the traversal of the components")
+        else:
+            run.fail(rule, "nested-transform:down", "visit_outline descends into the components of a composite glyph without the transform it was given: the placement of a "
+                     "composite inside another composite is lost (nested components are drawn as if their parent sat at the origin, unscaled)", b.loc(t))
+    c = vc[0]
+    cprov = sym.Prov(c)
+    passive = {"self", "sink", "glyphs", "depth"}
+    rec = [(bi, t) for bi, t in c.calls() if (t["callee"].get("path") or "").endswith("::visit_outline")]
+    if not rec:
+        run.anchor_missing(rule, "recursive visit_outline call in visit_composite_glyph_outline")
+    for bi, t in rec:
+        names = set()
+        for a in t["args"]:
+            for x in sym.walk(cprov.op(a)):
+                if x[0] == "arg" and x[2]:
+                    names.add(x[2])
+        extra = names - passive
+        if extra:
+            run.ok(rule, "visit_composite_glyph_outline composes the inherited %s with each component's transform" % sorted(extra))
+        else:
+            run.fail(rule, "nested-transform:compose", "visit_composite_glyph_outline calls visit_outline with the component's own offset and scale only: nothing inherited "
+                     "from the enclosing composite takes part", c.loc(t))
+
+
 def check(run, fx, tier, floors=True):
     recursion.run_rule(run, fx, "C01-a", lambda f: any("tables::glyf::outline" in p for p in f.local_paths), floors_n=1 if floors else None)
     rules_C01.rule_panics(run, fx, "C01-b", lambda b: b.file in FILES, floors, floor_n=5)
     if floors or fx.const("tables::glyf::SimpleGlyphFlag::ON_CURVE_POINT") is not None:
         t16_flags(run, fx)
         t16_pred(run, fx)
+    if floors or any(b.root.endswith("::visit_composite_glyph_outline") for b in fx.bodies):
+        t16_comp(run, fx)
     indexing.rule_index(run, fx, "C16-i", floors, select=lambda b: b.file in FILES, floor_n=10)
     overflow.rule_overflow(run, fx, "C16-o", floors, select=lambda b: b.file in FILES, floor_n=10)
